@@ -307,27 +307,23 @@ PROPS = {
     ),
     'C17': dict(
         title='The C API behaves exactly like the Rust API on the same values',
-        verus=[('u_capi', [r'^haystack_value_'])],
+        verus=[('u_capi', [r'^haystack_value_', r'^haystack_filter_'])],
         kani=[],
         witness='enum:capi-list',
         design_ref='DESIGN.md section 4, C17',
-        level_text=('Proof (Verus, under extraction rule R10 which turns the pointer protocol into types) for 55 of the extern "C" functions. '
+        level_text=('Proof (Verus, under extraction rule R10 which turns the pointer protocol into types) for 77 of the extern "C" functions. '
                     'Constructors (marker, na, remove, bool, number, coord, list): the handle holds exactly the value the Rust constructor makes; the string constructors (str, ref, ref with dis, uri, symbol) hold the value built from the text of the C string and return no handle for null or invalid UTF-8 (CStr::from_ptr is proved never to be applied to null). '
                     'Kind tests (all 18 haystack_value_is_*): the Rust predicate on a live handle, false on a null one. Scalar getters (coord lat/long, '
                     'number value / has_unit, dict / grid / str length, date year/month/day, time hour/minutes/seconds/millis): the component of the '
                     'wrapped value, and the documented sentinel (NaN, usize::MAX, u32::MAX, ERR) for a null handle or a handle of another kind. '
                     'get_datetime_date / get_datetime_time: the UTC or the local date / time as the flag asks, written into the result handle, which is '
-                    'left unchanged on failure. get_grid_row_at: the index-th row as a Dict value, ERR and an unchanged result out of range. insert_dict_entry / remove_dict_entry behave as insert / remove on the map the handle wraps and leave it unchanged on failure; get_list_entry_at / get_dict_entry hand out a pointer to the stored entry (a missing key is FALSE, not an error), the out-parameter being modelled as a slot for a borrowed reference. '
+                    'left unchanged on failure. get_grid_row_at: the index-th row as a Dict value, ERR and an unchanged result out of range. insert_dict_entry / remove_dict_entry behave as insert / remove on the map the handle wraps and leave it unchanged on failure; get_list_entry_at / get_dict_entry hand out a pointer to the stored entry (a missing key is FALSE, not an error), the out-parameter being modelled as a slot for a borrowed reference. The string getters (str, uri, symbol, ref value / dis, xstr type / value, number unit, timestamp zone) return a fresh C string holding exactly the bytes of the field, and null for another kind, a null handle or text with an interior NUL; the length getters return the byte length. The codec entry points (to / from Zinc and JSON text, filter parse, filter match on a dict, first match in a grid) return what the Rust codec, parser or evaluator returns on the same value or text. '
                     'The list part: '
                     'haystack_value_get_list_len / push_list_entry / set_list_entry_at / remove_list_entry_at behave as len / push / update / '
                     'remove on the sequence the handle wraps, return TRUE exactly in those cases, and on every failure (wrong kind, null entry, '
                     'index out of range) return the sentinel and leave the handle unchanged. Each call is verified for every handle state, so '
                     'any finite sequence of these calls is covered by induction.'),
-        not_decided=('R10 assumes handles are live and unaliased (the ownership protocol of C18) and that a mutated handle is non-null; '
-                     'that the error message is retrievable through last_error_message (thread-local); every constructor/getter that '
-                     'returns a CString (string getters, dict keys, zinc/json/filter entry points), borrowed entry pointers '
-                     'make_xstr and the grid constructors (iterator adapters), timestamp constructors -- 36 of the 91 extern "C" functions. '
-                     'chrono accessors are uninterpreted (distinct names for distinct accessors).'),
+        not_decided=('R10 assumes handles are live and unaliased (the ownership protocol of C18) and that a mutated handle is non-null; that the error message is retrievable through last_error_message (thread-local); make_xstr, the grid constructors, get_dict_keys and filter_match_all_grid (iterator adapters), the date / time / timestamp constructors (chrono), the two destroy functions and last_error_message -- 14 of the 91 extern "C" functions. chrono accessors, the Rust codecs and the filter evaluator appear as uninterpreted functions (distinct names for distinct functions): the contracts decide that the C function calls the right Rust operation on the right arguments and reports its outcome by the documented sentinel.'),
     ),
     'C11': dict(
         title='Re-encoding is stable; stream decoding equals buffer decoding',
